@@ -403,8 +403,10 @@ theorem controlled_gate_mixed_shapes_witness :
 generic `Gate(name)`; `GateCtor.construct` / `GateCtor.compact` (Model/GateCtor.lean) are the model of a keyword request
 `Class(targets=…, controls=…, arg_value=…, control_value=…)` and of `get_compact_qobj()` of the object, compared with the
 implementation on the complete grid of argument shapes.  A request is either refused or served with the documented
-matrix on the control value the object carries; accepted-but-wrong is excluded by the theorems below, except for the two
-request classes with a proved counterexample (`ctor_cphase_counterexample`, `ctor_fixed_counterexample`). -/
+matrix on the control value the object carries, which is the requested one (all controls 1 when none is given);
+accepted-but-wrong is excluded by the theorems below.  They describe the source AFTER the fixes C09-2 (CPHASE hands
+control_value on) and C09-3 (`_check_fixed_control_value` in TOFFOLI, FREDKIN and the generic `Gate.get_compact_qobj`);
+on the source before them `ctor_chain_hands_on` resp. `ctor_fixed_table` fail (the regenerated flags are false). -/
 open QipVerif.GateCtor
 
 /-- **What the hard-coded matrices are built on** (`GateCtor.hardOf`): the gate functions that classes return WITHOUT
@@ -480,38 +482,36 @@ theorem ctor_controlled_anatomy (P : Policy) (e : ClassInfo) (r : Req) (o : Obj)
     (e.oneCtrl = true → ∀ v, (if e.fwdCV then r.cv.toOpt else none) = some v → v ∈ P.accepted) :=
   construct_controlled hc h
 
-/-- **The request is honoured** — partial: for classes whose constructor chain hands a given control_value on
-(`fwdCV`; every class of the current source except CPHASE).  The object of an accepted request carries the REQUESTED
-control value; a one-control class substitutes the guard's default only when none is given -/
-theorem ctor_request_honoured_partial (P : Policy) (e : ClassInfo) (r : Req) (o : Obj) (hf : e.fwdCV = true)
-    (h : construct P e r = .ok o) :
-    o.cv = if e.controlled && e.oneCtrl then some (r.cv.toOpt.getD P.dflt) else r.cv.toOpt := by
-  by_cases hc : e.controlled = true
-  · have := (construct_controlled hc h).2.2.1
-    rw [this]; unfold cvOf
-    by_cases ho : e.oneCtrl = true <;> simp [hc, ho, hf]
-  · have hc' : e.controlled = false := by simpa using hc
-    have := (construct_plain (P := P) hc' h).2.2.1
-    rw [this]; simp [hc']
+/-- every constructor chain of the regenerated table hands a given control_value on (CPHASE dropped it before fix C09-2) -/
+theorem ctor_chain_hands_on : (G.ctorTable.all fun e => e.fwdCV) = true := by decide
 
-example : ∃ e ∈ G.ctorTable, e.key = "ControlledGate:RX" ∧ e.fwdCV = true ∧
+/-- **The request is honoured**: for every class of the regenerated table and every request, the object of an accepted
+request carries the REQUESTED control value; a one-control class (CNOT, CX, CZ, CRX, CPHASE, …) substitutes 1 only when
+none is given (and, by `ctor_controlled_anatomy`, lets a given value through only if it passed the guard) -/
+theorem ctor_request_honoured :
+    ∀ e ∈ G.ctorTable, ∀ (r : Req) (o : Obj), construct G.ctorPolicy e r = .ok o →
+      o.cv = if e.controlled && e.oneCtrl then some (r.cv.toOpt.getD 1) else r.cv.toOpt := by
+  intro e he r o h
+  have hf : e.fwdCV = true := List.all_eq_true.mp ctor_chain_hands_on e he
+  have hd : G.ctorPolicy.dflt = 1 := by decide
+  rw [← hd]
+  exact construct_cv_of_fwd hf h
+
+example : ∃ e ∈ G.ctorTable, e.key = "ControlledGate:RX" ∧
     construct G.ctorPolicy e ⟨.list [2], .list [1, 0], .scalar, .int 2⟩ = .ok ⟨some [2], some [1, 0], some 2⟩ := by
-  refine ⟨_, List.mem_of_getElem? (i := 39) rfl, by decide, by decide, by decide⟩
+  refine ⟨_, List.mem_of_getElem? (i := 39) rfl, by decide, by decide⟩
+example : ∃ e ∈ G.ctorTable, e.key = "CPHASE" ∧
+    construct G.ctorPolicy e ⟨.list [1], .list [0], .scalar, .int 0⟩ = .error .cvRefused ∧
+    construct G.ctorPolicy e ⟨.list [1], .list [0], .scalar, .none⟩ = .ok ⟨some [1], some [0], some 1⟩ := by
+  refine ⟨_, List.mem_of_getElem? (i := 34) rfl, by decide, by decide, by decide⟩
 
-/-- the request class the partial theorem leaves out, on the current source: `CPHASE` has a parameter `control_value`
-that it does not pass on (`fwdCV = false`, regenerated), so `CPHASE(controls=[0], targets=[1], arg_value=θ,
-control_value=0)` is ACCEPTED, the object carries the guard's default 1 and the matrix is the control-on-1 `cphase(θ)`
-(`hard_values_sound`) — the requested control value 0 is silently dropped.  Stated with the regenerated flag as
-hypothesis, so that it also builds once the class hands the value on (proposed fix C09-2), when it is vacuous. -/
-theorem ctor_cphase_counterexample :
-    ∀ e ∈ G.ctorTable, e.key = "CPHASE" → e.fwdCV = false →
-      construct G.ctorPolicy e ⟨.list [1], .list [0], .scalar, .int 0⟩ = .ok ⟨some [1], some [0], some 1⟩ ∧
-      e.usesCV = false ∧ hardOf e.spec = some (1, 1) := by decide
+/-- only `ControlledGate.get_compact_qobj` reads `self.control_value`: no class outside the hierarchy does -/
+theorem ctor_plain_table : (G.ctorTable.all fun e => e.controlled || !e.usesCV) = true := by decide
 
 /-- **Classes outside the ControlledGate hierarchy** (single-qubit, two-qubit, TOFFOLI, FREDKIN, the generic `Gate`):
 the object carries targets / controls / control_value as given (a bare integer = one-element list), the guards of the
-arity class hold, and — unless the class has the fixed-control-value guard of the proposed fix — acceptance does not
-depend on control_value at all; `get_compact_qobj` never reads it (`compact` is `plain`) -/
+arity class hold, and — unless the class calls `_check_fixed_control_value()` — acceptance does not depend on
+control_value at all (X, SWAP, …: there is nothing it could refer to) -/
 theorem ctor_plain_anatomy (P : Policy) (e : ClassInfo) (r : Req) (o : Obj) (hc : e.controlled = false)
     (h : construct P e r = .ok o) :
     o.targets = r.targets.norm ∧ o.controls = r.controls.norm ∧ o.cv = r.cv.toOpt ∧
@@ -521,27 +521,58 @@ theorem ctor_plain_anatomy (P : Policy) (e : ClassInfo) (r : Req) (o : Obj) (hc 
       ∀ v, construct P e { r with cv := v } = .ok { o with cv := v.toOpt }) :=
   construct_plain hc h
 
-/-- … so for the controlled gates among them the requested control value is ignored on the current source
-(`fixedGuard = false`, regenerated): `TOFFOLI(controls=[0, 1], targets=[2], control_value=0)`,
-`FREDKIN(controls=[0], targets=[1, 2], control_value=0)` and `Gate("CNOT", controls=[0], targets=[1], control_value=0)`
-are ACCEPTED, carry control_value 0, and return the matrix built on control value 3 resp. 1 (`hard_values_sound`).
-Vacuous once the classes call the guard (proposed fix C09-3). -/
-theorem ctor_fixed_counterexample :
-    (∀ e ∈ G.ctorTable, e.key = "TOFFOLI" → e.fixedGuard = false →
-      construct G.ctorPolicy e ⟨.list [2], .list [0, 1], .absent, .int 0⟩ = .ok ⟨some [2], some [0, 1], some 0⟩ ∧
-      e.usesCV = false ∧ hardOf e.spec = some (2, 3)) ∧
-    (∀ e ∈ G.ctorTable, e.key = "FREDKIN" → e.fixedGuard = false →
-      construct G.ctorPolicy e ⟨.list [1, 2], .list [0], .absent, .int 0⟩ = .ok ⟨some [1, 2], some [0], some 0⟩ ∧
-      e.usesCV = false ∧ hardOf e.spec = some (1, 1)) ∧
-    (∀ e ∈ G.ctorTable, e.key = "Gate:CNOT" → e.fixedGuard = false →
-      construct G.ctorPolicy e ⟨.list [1], .list [0], .absent, .int 0⟩ = .ok ⟨some [1], some [0], some 0⟩ ∧
-      e.usesCV = false ∧ hardOf e.spec = some (1, 1)) := by
-  refine ⟨by decide, by decide, by decide⟩
+example : ∃ e ∈ G.ctorTable, e.key = "X" ∧ e.controlled = false ∧
+    construct G.ctorPolicy e ⟨.scalar 0, .absent, .absent, .absent⟩ = .ok ⟨some [0], none, none⟩ ∧
+    construct G.ctorPolicy e ⟨.list [0, 1], .absent, .absent, .absent⟩ = .error .oneTarget ∧
+    construct G.ctorPolicy e ⟨.scalar 0, .scalar 1, .absent, .absent⟩ = .error .noControl := by
+  refine ⟨_, List.mem_of_getElem? (i := 0) rfl, by decide, by decide, by decide, by decide, by decide⟩
+
+/-- every class outside the ControlledGate hierarchy whose matrix function is a CONTROLLED gate (`hardOf`: TOFFOLI,
+FREDKIN, the generic Gate of CNOT, CSIGN, CY, CZ, CS, CT, CRX, CRY, CRZ, CPHASE, TOFFOLI, FREDKIN) calls
+`_check_fixed_control_value()` (regenerated flag; none did before fix C09-3) -/
+theorem ctor_fixed_table :
+    (G.ctorTable.all fun e => e.controlled || (hardOf e.spec).isNone || e.fixedGuard) = true := by decide
+
+/-- **Fixed-matrix classes outside the ControlledGate hierarchy refuse every control value but "all controls 1"**: for
+every such class of the regenerated table and every request, if the constructor accepts and `get_compact_qobj()`
+returns, then either no control value was given, or controls are listed and the value is 2^(number of listed
+controls) − 1 — what the hard-coded matrix is built on (`hard_values_sound`); the matrix never depends on it (`plain`) -/
+theorem ctor_fixed_refuses :
+    ∀ e ∈ G.ctorTable, e.controlled = false → (hardOf e.spec).isSome = true →
+      ∀ (ct : Which) (r : Req) (o : Obj) (c : Compact),
+        construct G.ctorPolicy e r = .ok o → compact ct e r o = .ok c →
+          (o.cv = none ∨ ∃ l, o.controls = some l ∧ l ≠ [] ∧ o.cv = some (((2 ^ l.length : ℕ) : Int) - 1)) ∧
+          o.cv = r.cv.toOpt ∧ c = .plain := by
+  intro e he hc hh ct r o c h1 h2
+  have ht := List.all_eq_true.mp ctor_fixed_table e he
+  have hf : e.fixedGuard = true := by
+    simp only [hc, Bool.false_or, Bool.or_eq_true, Option.isNone_iff_eq_none] at ht
+    rcases ht with ht | ht
+    · rw [ht] at hh; simp at hh
+    · exact ht
+  have hu : e.usesCV = false := by
+    have := List.all_eq_true.mp ctor_plain_table e he
+    simpa [hc] using this
+  refine ⟨?_, (construct_plain hc h1).2.2.1, compact_plain hu h2⟩
+  by_cases hg : e.generic = true
+  · exact compact_fixed_generic hg hf h2
+  · exact construct_fixed hc (by simpa using hg) hf h1
+
+example : ∃ e ∈ G.ctorTable, e.key = "TOFFOLI" ∧ e.controlled = false ∧ (hardOf e.spec).isSome = true ∧
+    construct G.ctorPolicy e ⟨.list [2], .list [0, 1], .absent, .int 0⟩ = .error .cvRefused ∧
+    construct G.ctorPolicy e ⟨.list [2], .list [0, 1], .absent, .int 3⟩ = .ok ⟨some [2], some [0, 1], some 3⟩ ∧
+    construct G.ctorPolicy e ⟨.list [0, 1, 2], .absent, .absent, .absent⟩ = .ok ⟨some [0, 1, 2], none, none⟩ := by
+  refine ⟨_, List.mem_of_getElem? (i := 23) rfl, by decide, by decide, by decide, by decide, by decide, by decide⟩
 
 /-- `QubitCircuit.add_gate(name, …)` passes every absent argument as None (`Req.viaCircuit`): whatever the class path
 serves, the circuit path serves with the same object, hence the same matrix -/
 theorem ctor_circuit_agrees (P : Policy) (e : ClassInfo) (r : Req) (o : Obj) (h : construct P e r = .ok o) :
     construct P e r.viaCircuit = .ok o := construct_viaCircuit h
+
+example : ∃ e ∈ G.ctorTable, e.key = "CNOT" ∧
+    construct G.ctorPolicy e ⟨.scalar 1, .scalar 0, .absent, .absent⟩ = .ok ⟨some [1], some [0], some 1⟩ ∧
+    (⟨.scalar 1, .scalar 0, .absent, .absent⟩ : Req).viaCircuit = ⟨.scalar 1, .scalar 0, .none, .none⟩ := by
+  refine ⟨_, List.mem_of_getElem? (i := 16) rfl, by decide, by decide, by decide⟩
 
 /-- **The matrix of a class that reads `control_value`** (`ControlledGate.get_compact_qobj`, i.e. ControlledGate itself
 and CX, CY, CS, CT, CRX, CRY, CRZ): for an object with `m` listed controls and control value `v < 2^m`, whatever the
